@@ -152,6 +152,8 @@ def opaque_contains(ex, cont, item, node):
 
 
 def obj_getitem(ex, ptr, c, idx, node):
+    if '__items__' in c.fields:
+        return ex.index(ex.res(c.fields['__items__']), idx, node)
     info = ex.find_class(c.cls)
     if info is not None:
         m = info.find_method('__getitem__')
@@ -161,6 +163,17 @@ def obj_getitem(ex, ptr, c, idx, node):
 
 
 def obj_setitem(ex, ptr, c, idx, v, node):
+    if '__items__' in c.fields:
+        items = ex.res(c.fields['__items__'])
+        ci = idx.concrete() if isinstance(idx, VInt) else None
+        if isinstance(items, VTuple) and ci is not None and -len(items.items) <= ci < len(items.items):
+            lst = list(items.items)
+            lst[ci] = v
+            c2 = ObjCell(c.cls, c.fields, c.spec)
+            c2.fields['__items__'] = VTuple(lst)
+            ex.setcell(ptr, c2)
+            return
+        ex.limit('item store on a production with symbolic index', node)
     info = ex.find_class(c.cls)
     if info is not None:
         m = info.find_method('__setitem__')
@@ -357,6 +370,9 @@ def unpack_other(ex, v, n, node):
 
 
 def call_opaque(ex, fn, args, kwargs, node):
+    if fn.cls == 'logfunc':
+        ex.used_assumptions.add('A-LOG')
+        return NONE
     if fn.cls == 'function':
         # a user-supplied callable: logged in the ghost call sequence; may return or raise anything
         c = ex.cell(VPtr(0))
@@ -383,7 +399,13 @@ def call_generator(ex, fi, args, kwargs, node, closure):
     ex.limit(f'generator function {fi.qualname}', node)
 
 
+OPAQUE_REPO_CLASSES = {'NocaseDict', 'NocaseList'}
+
+
 def instantiate_repo(ex, info, args, kwargs, node):
+    if info.name in OPAQUE_REPO_CLASSES:
+        ex.used_assumptions.add(f'A-CIMOBJ: {info.name}(...) construction does not raise for these arguments (opaque object)')
+        return VOpaque(z3.Const(ex.fresh_name(info.name.lower()), RefSort), info.name)
     return None
 
 
@@ -1603,3 +1625,11 @@ def _frozenset(ex, fn, args, kw, node):
             ex.limit('set() with symbolic elements', node)
         vals.append(c)
     return VPy(frozenset(vals))
+
+
+@builtin('os.path.dirname', 'os.path.basename', 'os.path.abspath', 'os.path.join', 'os.path.normpath')
+def _os_path(ex, fn, args, kw, node):
+    for a in args:
+        if not isinstance(ex.res(a), VStr):
+            ex.raise_('TypeError', node)
+    return VStr(z3.String(ex.fresh_name('path')))
